@@ -1812,6 +1812,7 @@ func (s *Server) clearExpiredRetainedMessages(now int64) {
 			now-pk.Created > s.Options.Capabilities.MaximumMessageExpiryInterval
 
 		if expired || enforced {
+			verifAt("retained.expiring", nil)
 			s.Topics.Retained.Delete(filter)
 			s.hooks.OnRetainedExpired(filter)
 		}
